@@ -140,16 +140,15 @@ theorem inRange_stop (b : Option Bytes) (x k : Bytes) : inRange b (some x) k = (
 
 theorem inRange_some_none (b k : Bytes) : inRange (some b) none k = bytesLe b k := by simp [inRange]
 
-/-- lower bound used by `getOrderIterator` for a request without a key -/
-def lowerBound (rev : Bool) (after : UInt64) : Option Bytes :=
-  if after ≠ 0 then
-    some (u64Bz (if rev then after + 1 else if after ≠ 18446744073709551615 then after + 1 else after))
-  else none
+/-- lower bound used by `getOrderIterator` for a request without a key (both directions): the key of
+`after + 1`, or of `after` itself when `after = MaxUint64` -/
+def lowerBound (after : UInt64) : Option Bytes :=
+  if after ≠ 0 then some (u64Bz (if after ≠ 18446744073709551615 then after + 1 else after)) else none
 
 /-- the iteration order of a request without a key: the entries from the after-order bound on,
 ascending, or the same entries descending -/
 def firstIter (ps : List Entry) (rev : Bool) (after : UInt64) : List Entry :=
-  if rev then (iter ps (lowerBound true after) none).reverse else iter ps (lowerBound false after) none
+  if rev then (iter ps (lowerBound after) none).reverse else iter ps (lowerBound after) none
 
 theorem getOrderIterator_none (ps : List Entry) (rev : Bool) (after : UInt64) :
     getOrderIterator ps none rev after = .ok (firstIter ps rev after) := by
@@ -205,14 +204,14 @@ theorem getOrderIterator_at_key {ps : List Entry} (hs : Sorted ps) (rev : Bool) 
   · -- reverse: the entries up to the key, descending
     unfold firstIter at hsplit
     simp only [↓reduceIte] at hsplit
-    have hasc : iter ps (lowerBound true after) none = (post.reverse ++ [h]) ++ pre.reverse := by
+    have hasc : iter ps (lowerBound after) none = (post.reverse ++ [h]) ++ pre.reverse := by
       have := congrArg List.reverse hsplit
       simpa using this
     obtain ⟨x, t, hxt⟩ : ∃ x t, pre.reverse = x :: t := by
       cases hr : pre.reverse with
       | nil => exact absurd (by simpa using hr) (hpre rfl)
       | cons x t => exact ⟨x, t, rfl⟩
-    have hasc1 : iter ps (lowerBound true after) none = post.reverse ++ h :: (x :: t) := by
+    have hasc1 : iter ps (lowerBound after) none = post.reverse ++ h :: (x :: t) := by
       rw [hasc, hxt]; simp
     have hend : reverseEnd ps (some h.1) = .ok (some x.1) := by
       unfold reverseEnd
@@ -220,14 +219,14 @@ theorem getOrderIterator_at_key {ps : List Entry} (hs : Sorted ps) (rev : Bool) 
       rw [iter_from_member hs hasc1]
     unfold getOrderIterator
     simp only [↓reduceIte, hend]
-    have hlb : (if after ≠ 0 then some (u64Bz (after + 1)) else none) = lowerBound true after := by
-      unfold lowerBound; simp
+    have hlb : (if after ≠ 0 then some (u64Bz (if after ≠ 18446744073709551615 then after + 1 else after))
+        else none) = lowerBound after := rfl
     rw [hlb]
-    have hasc2 : iter ps (lowerBound true after) none = (post.reverse ++ [h]) ++ x :: t := by
+    have hasc2 : iter ps (lowerBound after) none = (post.reverse ++ [h]) ++ x :: t := by
       rw [hasc1]; simp
-    have : iter ps (lowerBound true after) (some x.1) = post.reverse ++ [h] := by
-      have e : iter ps (lowerBound true after) (some x.1) =
-          (iter ps (lowerBound true after) none).filter (fun e => bytesLt e.1 x.1) := by
+    have : iter ps (lowerBound after) (some x.1) = post.reverse ++ [h] := by
+      have e : iter ps (lowerBound after) (some x.1) =
+          (iter ps (lowerBound after) none).filter (fun e => bytesLt e.1 x.1) := by
         unfold iter
         rw [List.filter_filter]
         apply List.filter_congr
